@@ -3,6 +3,7 @@ K1: real writer.update_file_custom_metadata on a SymFile (open / struct / int.fr
     for every data length and every old/new footer length the file afterwards is  data ++ new footer ++ len32 ++ PAR1
     and ends there; nothing before the footer is written.
 K2: real util.update_custom_metadata over real KeyValue ThriftObjects vs. the dict-update-with-None-deletes model."""
+import os
 from typing import Dict, List, Optional, Tuple
 
 from vf.pyshim.kit import Seg, SymFile, REPLAY
@@ -136,6 +137,7 @@ def _kvlist(keys, vals):
     return [parquet_thrift.KeyValue(key=k, value=v) for k, v in zip(keys, vals)]
 
 
+ONE_DICT = os.environ.get("VERIF_ONE_DICT", "0") == "1"
 KEYS = ["a", "b", b"a", "\u00e9"]      # str and bytes spellings, one non-ASCII
 VALS = ["x", b"y", "", None]
 
@@ -156,8 +158,11 @@ def h_update_rules(n_old: int, u0: int, w0: int, u1: int, w1: int, n_upd: int) -
     fmd = ThriftObject.from_fields("FileMetaData", key_value_metadata=_kvlist([e[0] for e in old],
                                                                               [e[1] for e in old]))
     upds = [(KEYS[u0], VALS[w0]), (KEYS[u1], VALS[w1])][:n_upd]
-    for k, v in upds:
-        util.update_custom_metadata(fmd, {k: v})
+    if ONE_DICT and len({k for k, _ in upds}) == len(upds):
+        util.update_custom_metadata(fmd, dict(upds))          # one update dict naming several keys
+    else:
+        for k, v in upds:
+            util.update_custom_metadata(fmd, {k: v})          # a sequence of single-key updates
     got = [(kv.key, kv.value) for kv in (fmd.key_value_metadata or [])]
     model = list(old)
     for k, v in upds:
@@ -184,8 +189,12 @@ def replay_h_update_rules(n_old, u0, w0, u1, w1, n_upd):
         fn = os.path.join(d, "t.parq")
         fastparquet.write(fn, pd.DataFrame({"a": [1]}), custom_metadata=dict(old))
         model = dict(old)
+        if ONE_DICT and len({k for k, _ in upds}) == len(upds):
+            fastparquet.update_file_custom_metadata(fn, dict(upds))
+        else:
+            for k, v in upds:
+                fastparquet.update_file_custom_metadata(fn, {k: v})
         for k, v in upds:
-            fastparquet.update_file_custom_metadata(fn, {k: v})
             if v is None:
                 model.pop(_b(k), None)
             else:
